@@ -316,7 +316,7 @@ func TestPackageMutated(t *testing.T) {
 	for _, kind := range pkggen.AllKinds {
 		kind := kind
 		t.Run(kind, func(t *testing.T) {
-			checkRounds(t, "TestPackageMutated/"+kind, vh.N(900, 30000), genMutated(kind), runPkg)
+			checkRounds(t, "TestPackageMutated/"+kind, vh.N(2500, 40000), genMutated(kind), runPkg)
 		})
 	}
 }
@@ -387,7 +387,7 @@ func TestPackageArbitrary(t *testing.T) {
 			}
 		}
 	})
-	checkRounds(t, "TestPackageArbitrary", vh.N(8000, 400000), genArbitrary, runPkg)
+	checkRounds(t, "TestPackageArbitrary", vh.N(25000, 500000), genArbitrary, runPkg)
 }
 
 // ---- a format followed by arbitrary row bytes
@@ -429,7 +429,7 @@ func genRowBytes(rt *rapid.T) pkgCase {
 // TestFormatThenRowBytes: a valid format package followed by a row / parameter token
 // and arbitrary bytes.
 func TestFormatThenRowBytes(t *testing.T) {
-	checkRounds(t, "TestFormatThenRowBytes", vh.N(6000, 300000), genRowBytes, runPkg)
+	checkRounds(t, "TestFormatThenRowBytes", vh.N(15000, 300000), genRowBytes, runPkg)
 }
 
 // TestAllocProbe: a LANGUAGE package that announces 2^27 bytes and carries two.
